@@ -907,6 +907,24 @@ func (s *ScopedKeyManager) rowInterfaceToManaged(ns walletdb.ReadBucket,
 func (s *ScopedKeyManager) loadAndCacheAddress(ns walletdb.ReadBucket,
 	address btcutil.Address) (ManagedAddress, error) {
 
+	managedAddr, err := s.loadAddress(ns, address)
+	if err != nil {
+		return nil, err
+	}
+
+	// Cache and return the new managed address.
+	s.addrs[addrKey(managedAddr.Address().ScriptAddress())] = managedAddr
+
+	return managedAddr, nil
+}
+
+// loadAddress attempts to load the passed address from the database without
+// touching the address cache.
+//
+// This function MUST be called with the manager lock held for writes.
+func (s *ScopedKeyManager) loadAddress(ns walletdb.ReadBucket,
+	address btcutil.Address) (ManagedAddress, error) {
+
 	// Attempt to load the raw address information from the database.
 	rowInterface, err := fetchAddress(ns, &s.scope, address.ScriptAddress())
 	if err != nil {
@@ -921,15 +939,7 @@ func (s *ScopedKeyManager) loadAndCacheAddress(ns walletdb.ReadBucket,
 
 	// Create a new managed address for the specific type of address based
 	// on type.
-	managedAddr, err := s.rowInterfaceToManaged(ns, rowInterface)
-	if err != nil {
-		return nil, err
-	}
-
-	// Cache and return the new managed address.
-	s.addrs[addrKey(managedAddr.Address().ScriptAddress())] = managedAddr
-
-	return managedAddr, nil
+	return s.rowInterfaceToManaged(ns, rowInterface)
 }
 
 // existsAddress returns whether or not the passed address is known to the
@@ -1167,19 +1177,18 @@ func (s *ScopedKeyManager) nextAddresses(ns walletdb.ReadWriteBucket,
 
 		// Now that we've written the address, we'll read it back from
 		// disk to ensure that it's the same address we have in memory.
-		diskAddr, err := s.loadAndCacheAddress(ns, ma.Address())
+		//
+		// The address cache is left alone here: the new addresses are
+		// added to it by the onCommit closure below, once the database
+		// transaction has committed. Caching the read-back address at
+		// this point would leave it in the cache if the transaction is
+		// rolled back (dry run, failed commit).
+		diskAddr, err := s.loadAddress(ns, ma.Address())
 		if err != nil {
 			return nil, maybeConvertDbError(err)
 		}
 
 		if ma.Address().String() != diskAddr.Address().String() {
-			// The address didn't match up, so we'll manually
-			// delete it from the cache.
-			delete(
-				s.addrs,
-				addrKey(diskAddr.Address().ScriptAddress()),
-			)
-
 			return nil, fmt.Errorf("%w (disk read): "+
 				"expected %v, got %v", ErrAddrMismatch,
 				diskAddr.Address().String(),
